@@ -189,6 +189,8 @@ def run(tier: str, replay=None) -> int:
             for nm in rng.sample(keys, min(6, len(keys))):
                 kind = rng.choice(["replace", "break", "repair", "append", "drop"])
                 parts = tasks2[nm]
+                if not parts and kind in ("replace", "break"):
+                    kind = "append"      # an entry without parts
                 if kind == "replace":
                     parts[0] = beh[rng.choice(short)][0]
                 elif kind == "break":
